@@ -141,5 +141,9 @@ def replay(path):
         for clause, l in viols:
             print("  clause %s false: %s" % (clause, json.dumps(t["ev"][l - 1])[:400]))
         return 1 if viols else 0
+    if kind == "trsbox_machine":
+        from . import trsboxmachine
+        print("source of the call: %s" % json.dumps(inst["src"])[:600])
+        return trsboxmachine.replay_call(inst, os.path.join(wd, "tm"))
     print("no replayer for instance kind %r; the replay file holds the instance" % kind)
     return 0
